@@ -88,6 +88,25 @@ def create_if_exp(nname, iname, max_i, jname=None, max_j=None):
     return _create_if_exp(0, None if jname is None else 0)
 
 
+def _tuple_record(name_node, tup):
+    """What is remembered about `name = (e0, e1, ...)`: constant elements are kept (lookup
+    tables), every other element is referred to as `name[i]`, i.e. by the value it had when the
+    tuple was built and not by an expression that would be evaluated again where the tuple is
+    used (its variables may have been re-assigned in between)"""
+    elts = []
+    for i, e in enumerate(tup.elts):
+        sub = ast.Subscript(
+            value=name_node, slice=ast.Constant(value=i, kind=None), ctx=ast.Load()
+        )
+        if isinstance(e, ast.Tuple):
+            elts.append(_tuple_record(sub, e))
+        elif isinstance(e, ast.Constant):
+            elts.append(e)
+        else:
+            elts.append(sub)
+    return ast.Tuple(elts=elts)
+
+
 @dataclass
 class IsNamePresent(ast.NodeVisitor):
     """Check if a tree contains a specific name_id"""
@@ -315,10 +334,22 @@ class ASTRewriter(ast.NodeTransformer):
             self.env.set_constant(target, node.value)
         elif isinstance(node.value, ast.Name) and node.value.id in self.env:
             self.env.copy_type(node.value.id, target)
+            if isinstance(self.env.get_constant(target), ast.Tuple):
+                # the elements are now those of target (the origin may be re-assigned)
+                record = _tuple_record(
+                    ast.Name(id=target, ctx=ast.Load()), self.env.get_constant(target)
+                )
+                self.env.remove(target)
+                self.env.set_constant(target, record)
         elif isinstance(node.value, ast.Tuple) or isinstance(node.value, ast.List):
             # The type (and length) is the one of the new value
             self.env.remove(target)
-            self.env.set_constant(target, self.visit(node.value))
+            self.env.set_constant(
+                target,
+                _tuple_record(
+                    ast.Name(id=target, ctx=ast.Load()), self.visit(node.value)
+                ),
+            )
         else:
             self.env.set_type(target, "Unknown")
 
